@@ -624,6 +624,10 @@ def check(ctx):
                 derive_rules.rule_keyframe_api(ctx, s_)
     except ImportError:
         ctx.notes.append("R5 (derive wiring) not built yet")
+    # "otherwise the timeline's default easing": the easing given to the builder reaches the arguments the generated build
+    # hands to every sub-timeline (setter -> configuration -> builder arguments; C03/R5)
+    from rules import c03, timescale_table as TT
+    c03.rule_metadata(ctx, TT.build(ctx), "R6")
     ctx.notes.append("not decided: that the index arithmetic is right for every keyframe set (an inductive numeric fact "
                      "about sorted positions); the value of any interpolation")
     ctx.assumptions += ["slice::binary_search_by on a sorted table returns Ok(i) for a hit and Err(insertion point) otherwise",
